@@ -55,7 +55,10 @@ def run(ctx):
         recs, text, index = make_fasta(r, c["n"], c["maxlen"], c["width"], c["eol"], True, c["final_newline"])
         # half of the cases write their FASTA to a path that held another FASTA before (the old index file is removed, as a user replacing a file would)
         fname_ = ["x.fa", "x.fa", "ref.gz.fa", "sample1.bam.fasta", "x.fasta", "a.b.fa"][c["seed"] % 6]        # the name of a FASTA file may contain other dotted parts
-        path = ctx.reuse_path(fname_) if c["seed"] % 2 else ctx.path(fname_)
+        if c.get("genome") and c["seed"] % 4:
+            # the genome route is driven mostly on ONE path that held other references before (a pipeline that rebuilds its reference in place)
+            fname_ = "x.fa"
+        path = ctx.reuse_path(fname_) if (c["seed"] % 2 or (c.get("genome") and c["seed"] % 4)) else ctx.path(fname_)
         fai = path + ".fai"
         if os.path.exists(fai):
             os.remove(fai)
